@@ -449,3 +449,22 @@ MUTANTS += [
      "                        let within_limits = self.constraints_compliant(now);\n                        now[J4] = previous[J4] + j_d;\n                        now[J6] = previous[J6] + j_d;\n\n                        // Check last time if the pose is ok\n                        let check_pose = self.forward(&now);\n                        if compare_poses(&pose, &check_pose, DISTANCE_TOLERANCE, ANGULAR_TOLERANCE) &&\n                            within_limits {",
      'C08', 'R08.3', 'limits of the recovered candidate checked before J4/J6 are redistributed'),
 ]
+
+# ---- variants kept as unified diffs (selftest/keep/*.diff)
+ALL = ['C%02d' % i for i in range(1, 21)]
+KEEP += [
+    ('K112', 'DIFF', 'K112_private_fields_renamed.diff', None, ALL,
+     'private fields renamed: OPWKinematics (parameters, constraints, unit_z), Jacobian (matrix, epsilon), JointData (from, to), Tree (kdtree, vertices)'),
+    ('K113', 'DIFF', 'K113_helpers_moved_consts_renamed.diff', None, ALL,
+     'the free angle helpers of the solver moved into a new module; private constants renamed (tolerances, singularity band, TWO_PI, distortion bound)'),
+    ('K114', 'DIFF', 'K114_clippy_fix.diff', None, ALL,
+     'the output of `cargo clippy --fix` on the whole library (149 lines in 14 files: needless returns and borrows, field init shorthand, op-assign, let-chains, Option::map, iter() for into_iter(), let-and-return)'),
+    ('K115', 'DIFF', 'K115_clippy_pedantic_fix.diff', None, ALL,
+     'K114 plus the automatic fixes of 23 pedantic clippy lints (f64::from for `as f64`, if_not_else branch swaps, assert! for if-panic, copied for cloned, inlined format arguments, `for x in &mut v`, map_or_else)'),
+    ('K116', 'DIFF', 'K116_clippy_flops_fix.diff', None, ALL,
+     'K115 plus clippy suboptimal_flops / imprecise_flops: every a*b + c of the solver, forward() and the cost function written as a.mul_add(b, c)'),
+    ('K117', 'DIFF', 'K117_to_yaml_string_builder.diff', None, ['C19'],
+     'Parameters::to_yaml built piecewise: push_str of literals and format!(..), +=, write!/writeln! into one String'),
+]
+
+MUTANTS.append(('M88', PY, "              c3: {}\\n  \\", "              c3: {:.3}\\n  \\", 'C19', 'R19.2', 'c3 written with three decimals'))
